@@ -2030,6 +2030,22 @@ func init() {
 		if payloadIsNil(e.rvLoad(v)) {
 			return uintptr(0)
 		}
+		switch p := e.rvLoad(v).(type) {
+		case []value:
+			// the address of the first element (cap 0: a fixed non-nil address, as in Go)
+			if cap(p) > 0 {
+				return uintptr(e.addrOf(&p[:1][0]))
+			}
+			return uintptr(0xc000100000)
+		case *omap:
+			if e.mapAddrs == nil {
+				e.mapAddrs = map[*omap]int{}
+			}
+			if _, ok := e.mapAddrs[p]; !ok {
+				e.mapAddrs[p] = 0xc000200000 + 64*len(e.mapAddrs)
+			}
+			return uintptr(e.mapAddrs[p])
+		}
 		return uintptr(0xc000100000)
 	})
 	R("(reflect.Value).UnsafePointer", func(fr *frame, a []value) value {
